@@ -134,6 +134,20 @@ def run(ctx):
                 hs2 = list(hs)
                 hs2[2] = hs[2][:pos] + ch + hs[2][pos + 1:]
                 trials.append(("corrupt-checksum", plist[:k0] + ["/".join(hs2)] + plist[k0 + 1:], False))
+            # a digit of the x-of-y header substituted: parts that disagree on the number of parts are not one transmission (strict);
+            # an altered x is judged like any other corruption (never different data)
+            for pk_ in range(y):
+                hs_ = plist[pk_].split("/")
+                if len(hs_) == 4 and "of" in hs_[1]:
+                    x_, y_ = hs_[1].split("of")
+                    for newy in {str(int(y_) + 1), str(int(y_) + 5), y_ + "0"}:
+                        h2 = list(hs_)
+                        h2[1] = x_ + "of" + newy
+                        trials.append(("corrupt-header-y", plist[:pk_] + ["/".join(h2)] + plist[pk_ + 1:], False))
+                    if int(x_) + 1 <= int(y_):
+                        h2 = list(hs_)
+                        h2[1] = str(int(x_) + 1) + "of" + y_
+                        trials.append(("corrupt-header-x", plist[:pk_] + ["/".join(h2)] + plist[pk_ + 1:], False))
             if n > 2000:
                 trials = trials[:6]
             for j, (name, lst, honest) in enumerate(trials):
@@ -141,7 +155,7 @@ def run(ctx):
                 acc = got[0] == "ok"
                 res = base64.b64decode(got[1].text_b64) if acc else b""
                 big = n > 2000
-                cases.append({"id": "p%d.%d.%d.%s" % (i, m, j, name), "kind": "parse", "honest": honest, "accepted": acc, "mut": name,
+                cases.append({"id": "p%d.%d.%d.%s" % (i, m, j, name), "kind": "parse", "honest": honest, "strict": name == "corrupt-header-y" and y >= 2, "accepted": acc, "mut": name,
                               "payload": B(payload) if not big else [len(payload) % 251], "result": B(res) if not big else ([len(payload) % 251] if res == payload else [0, 0])})
                 ctx.nontriv(("parse", name, acc))
         # single-part form
@@ -151,7 +165,7 @@ def run(ctx):
             got = outcome(BC.BCURSingle.parse, s)
             acc = got[0] == "ok"
             if n <= 2000:
-                cases.append({"id": "s%d.%s" % (i, use), "kind": "parse", "honest": True, "accepted": acc, "mut": "single", "payload": B(payload), "result": B(base64.b64decode(got[1].text_b64)) if acc else []})
+                cases.append({"id": "s%d.%s" % (i, use), "kind": "parse", "honest": True, "strict": False, "accepted": acc, "mut": "single", "payload": B(payload), "result": B(base64.b64decode(got[1].text_b64)) if acc else []})
     byid = {c["id"]: c for c in cases}
     ctx.sample({k: v for k, v in cases[0].items() if k in ("id", "kind", "data")})
     bad = ctx.validate("bcur/C20Cases.tla", [{k: v for k, v in c.items() if k != "mut"} for c in cases], "C20Cases.cfg", timeout=7200, per_shard_min=30)
